@@ -550,6 +550,43 @@ def items(trees):
     add("row_after_kicks", "mej kicked", lambda: row_item("after_kicks"))
     add("row_over_budget", "mej", lambda: row_item("over"))
 
+    # --- IMF: the conditions that select a segment for a mass / a bin, and the continuity recursion (C11, C01)
+    def imf_item(which):
+        fn = find_def(ms, "PowerLawIMF.__call__" if which.startswith("call") else "PowerLawIMF.binned_eval" if which.startswith("bin") else "PowerLawIMF.__init__")
+        if which == "A_step":
+            a = find_setitem(fn, "self._A_comps[i - 1]")
+            if len(a) != 1:
+                raise Unsupported("PowerLawIMF.__init__: continuity recursion not found")
+            return Tx({"self._A_comps[i]": "Ai", "mb[i]": "mbi", "a[i]": "ai", "a[i - 1]": "aim1"})(a[0].value)
+        var = "bounds" if which.startswith("call") else "bin_masks"
+        lists = [n for n in own_nodes(fn) if isinstance(n, ast.Assign) and target_str(n.targets[0]) == var]
+        lists.sort(key=lambda n: n.lineno)
+        if len(lists) != 3:
+            raise Unsupported(f"{fn.name}: expected three assignments of {var}")
+        ext_list, in_list = lists[1].value, lists[2].value
+        env = {"mass": "m", "bins.lower": "l", "bins.upper": "u", "self.mb[1]": "b1", "self.mb[-2]": "bl", "lw_bnd": "lo", "up_bnd": "hi"}
+        tx = Tx(env)
+        if not (isinstance(ext_list, ast.List) and len(ext_list.elts) == 3 and isinstance(ext_list.elts[1], ast.Starred)
+                and isinstance(ext_list.elts[1].value, ast.GeneratorExp)):
+            raise Unsupported(f"{fn.name}: extrapolate-mode condition list changed shape")
+        gen_ = ext_list.elts[1].value
+        if ast.unparse(gen_.generators[0].iter) != "zip(self.mb[1:-2], self.mb[2:-1])":
+            raise Unsupported(f"{fn.name}: middle segments are now paired by `{ast.unparse(gen_.generators[0].iter)}`")
+        if not (isinstance(in_list, ast.ListComp) and ast.unparse(in_list.generators[0].iter) == "zip(self.mb[:-1], self.mb[1:])"):
+            raise Unsupported(f"{fn.name}: in-range segments are no longer paired by zip(self.mb[:-1], self.mb[1:])")
+        kind = which.split("_", 1)[1]
+        node = {"first": ext_list.elts[0], "mid": gen_.elt, "last": ext_list.elts[2], "in": in_list.elt}[kind]
+        return tx.cond(node) + " -- Bool"
+    add("imf_A_step", "Ai mbi ai aim1", lambda: imf_item("A_step"))
+    add("call_first", "m b1", lambda: imf_item("call_first"))
+    add("call_mid", "m lo hi", lambda: imf_item("call_mid"))
+    add("call_last", "m bl", lambda: imf_item("call_last"))
+    add("call_in", "m lo hi", lambda: imf_item("call_in"))
+    add("bin_first", "l u b1", lambda: imf_item("bin_first"))
+    add("bin_mid", "l u lo hi", lambda: imf_item("bin_mid"))
+    add("bin_last", "l u bl", lambda: imf_item("bin_last"))
+    add("bin_in", "l u lo hi", lambda: imf_item("bin_in"))
+
     # --- shape of the schedule / extraction loop (C06, C07, C17): syntactic obligations, value 1 when the source has the expected shape
     def sched_item(which, cls="EvolvedMF"):
         init = find_def(ev, "EvolvedMF.__init__")
